@@ -29,7 +29,7 @@ method = XPath31Parser.method
 function = XPath31Parser.function
 
 register('map', bp=90, label=('kind test', 'map'), bases=(XPathFunction,),
-         pattern=r'(?<!\$)\bmap(?=\s*(?:\(\:.*\:\))?\s*(?=\(|\{)(?!\:))')
+         pattern=r'(?<!\$)\bmap(?=\s*(?:\(\:.*\:\))?\s*(?:\((?!\:)|\{))')
 
 
 @method('map')
@@ -61,7 +61,7 @@ def nud__map_sequence_type_or_constructor(self: XPathFunction) \
 
 
 register('array', bp=90, label=('kind test', 'array'), bases=(XPathFunction,),
-         pattern=r'(?<!\$)\barray(?=\s*(?:\(\:.*\:\))?\s*(?=\(|\{)(?!\:))')
+         pattern=r'(?<!\$)\barray(?=\s*(?:\(\:.*\:\))?\s*(?:\((?!\:)|\{))')
 
 
 @method('array')
